@@ -2,6 +2,7 @@ package executor
 
 import (
 	"context"
+	"errors"
 	"fmt"
 	"io"
 	"os"
@@ -16,7 +17,12 @@ import (
 type commandExecutor struct {
 	cmd  *exec.Cmd
 	lock sync.Mutex
+	// prevented is set when a stop request reaches the executor before its
+	// process was started: Run then starts nothing.
+	prevented bool
 }
+
+var errStartPrevented = errors.New("not started: the run is being stopped")
 
 func newCommand(ctx context.Context, step dag.Step) (Executor, error) {
 	// nolint: gosec
@@ -49,6 +55,10 @@ func newCommand(ctx context.Context, step dag.Step) (Executor, error) {
 
 func (e *commandExecutor) Run() error {
 	e.lock.Lock()
+	if e.prevented {
+		e.lock.Unlock()
+		return errStartPrevented
+	}
 	err := e.cmd.Start()
 	e.lock.Unlock()
 	if err != nil {
@@ -69,9 +79,21 @@ func (e *commandExecutor) Kill(sig os.Signal) error {
 	e.lock.Lock()
 	defer e.lock.Unlock()
 	if e.cmd == nil || e.cmd.Process == nil {
+		// nothing to signal yet: make sure nothing is started later
+		e.prevented = true
 		return nil
 	}
 	return syscall.Kill(-e.cmd.Process.Pid, sig.(syscall.Signal))
+}
+
+// PreventStart makes Run start nothing if the process has not been started
+// yet; a process that is already running is left alone.
+func (e *commandExecutor) PreventStart() {
+	e.lock.Lock()
+	defer e.lock.Unlock()
+	if e.cmd == nil || e.cmd.Process == nil {
+		e.prevented = true
+	}
 }
 
 func init() {
